@@ -20,7 +20,8 @@ PROP = "C06"
 KMAX = 3
 META = {
     "bounds": {"quick": "arrays 1-D 5, 2-D 2x2; voxel labels 0..3; reference label 0..4, prediction label 0..4 or a list of two; "
-                        "no-selection mode on Boolean masks; clDice on 2x2 with an arbitrary skeleton subset",
+                        "no-selection mode on Boolean masks; clDice on 2x2 with an arbitrary skeleton subset; "
+                        "two-call history on 1-D 3: score, overwrite the same reference array object in place with arbitrary contents, score again",
                "thorough": "1-D 7, 2-D 2x3, 3-D 2x2x2; same label space; clDice on 2x3 and 1x2x2 (2x2x2 runs into the solver timeout and is outside the claim)"},
     "stubs": ["skimage skeletonize/skeletonize_3d := arbitrary subset of the mask (same subset for the same input)"],
     "assumptions": ["float64 modelled as exact rationals (one correctly rounded division per score; DESIGN 2.3)",
@@ -41,6 +42,10 @@ def cases(tier):
         out.append({"name": "vol_3_none_%s" % dt, "shape": (3,), "mode": "none", "what": "vol", "dtype": dt})
         for mode in ("int", "list2"):
             out.append({"name": "vol_3_%s_big_%s" % (mode, dt), "shape": (3,), "mode": mode, "what": "vol", "dtype": dt, "big": True})
+    # history: the caller computes a metric, edits the SAME reference array object in place, and asks again with the same indices -
+    # the second answer must be the definition applied to the array's current contents (no identity-keyed memo of selected masks)
+    for mode in ("int", "list2"):
+        out.append({"name": "vol_3_%s_after_inplace_edit" % mode, "shape": (3,), "mode": mode, "what": "vol", "edit": True})
     # (2x2x2 clDice was tried for the thorough tier: the harmonic-mean obligation over 16 voxels + 16 skeleton choices runs into the solver timeout)
     for shp in ([(2, 2)] if tier == "quick" else [(2, 3), (1, 2, 2)]):
         out.append({"name": "cldice_%s" % "x".join(map(str, shp)), "shape": shp, "mode": "none", "what": "cl"})
@@ -105,6 +110,13 @@ def run_case(case):
         X = [v == ri for v in rv]
         Y = [z3.Or([v == q for q in pi]) for v in pv]
         idx_vars = [ri] + pi
+    qv = []
+    if case.get("edit"):
+        qv = [z3.Int("q%d" % i) for i in range(n)]
+        for v in qv:
+            declare_bounds(v, 0, vmax)
+            base.append(z3.And(v >= 0, v <= vmax))
+    held = {}
     A, B = _count(X), _count(Y)
     I = _count([z3.And(x, y) for x, y in zip(X, Y)])
     U = A + B - I
@@ -115,6 +127,9 @@ def run_case(case):
         if mode != "none":
             d["ridx"] = jsonable(idx_vars[0], m)
             d["pidx"] = [jsonable(v, m) for v in idx_vars[1:]]
+        if qv:
+            d["edit"] = True
+            d["ref0"] = [jsonable(v, m) for v in qv]
         return d
     h = H(PROP, case["name"], decode, replay_kind="metric", max_witnesses=60)
 
@@ -132,6 +147,8 @@ def run_case(case):
     def call(metric, swap=False):
         ref = SArr(list(rv), dt, shape).protect("caller reference")
         pred = SArr(list(pv), dt, shape).protect("caller prediction")
+        if qv and not swap:
+            ref = held["ref"]
         if swap:
             return metric(pred, ref) if mode == "none" else metric(pred, ref, pidx, ridx)
         if mode == "none":
@@ -153,6 +170,18 @@ def run_case(case):
 
     def body_vol():
         exp = {}
+        if qv:
+            # the caller's own array object: first holds q, is scored once, then is overwritten in place with r
+            ro = SArr(list(qv), dt, shape)
+            try:
+                Metric.DSC(ro, SArr(list(pv), dt, shape), ridx, pidx)
+            except EngineSignal:
+                raise
+            except Exception:
+                pass
+            for j, v in zip(ro.idx, rv):
+                ro.buf.cells[j] = v
+            held["ref"] = ro.protect("caller reference")
         ok_d, d = guarded("dice", Metric.DSC, A + B > 0)
         ok_i, i = guarded("iou", Metric.IOU, U > 0)
         ok_r, r = guarded("rvd", Metric.RVD, A > 0)
@@ -246,6 +275,14 @@ def real_metric(case, mode, expect):
     shape = tuple(case["shape"])
     ref = np.array(case["ref"], dtype=case["dtype"]).reshape(shape)
     pred = np.array(case["pred"], dtype=case["dtype"]).reshape(shape)
+    if case.get("edit"):
+        new = ref
+        ref = np.array(case["ref0"], dtype=case["dtype"]).reshape(shape)
+        try:
+            Metric.DSC(ref, pred, case["ridx"], case["pidx"][0] if case["mode"] == "int" else list(case["pidx"]))
+        except Exception:
+            pass
+        ref[...] = new          # the caller edits the same array object in place
     ref0, pred0 = ref.copy(), pred.copy()
     if case["what"] == "cl" and case.get("mut_only"):
         try:
